@@ -107,6 +107,7 @@ type Site struct {
 	In      []string // function key globs (pkg-qualified short: "callbacks.Create$1"); empty = all
 	NotIn   []string
 	Asserts []*Clause
+	AssumeAfter []*Clause // assumed about the call's result (stated facts about what lies outside the code)
 	Lets    []*Clause
 	Entry   []*Clause // ghost initialisation assumed at entry of the functions swept
 	Tags    []string
@@ -735,12 +736,15 @@ func (cs *ContractSet) parseFile(file, pkgPath string) error {
 					curSite.Tags = append(curSite.Tags, strings.Fields(strings.ReplaceAll(rest, ",", " "))...)
 				case "min-sites":
 					fmt.Sscan(rest, &curSite.MinSites)
-				case "assert", "let", "entry":
+				case "assert", "let", "entry", "assume-after":
 					c, err := mk(word, rest, l)
 					if err != nil {
 						return err
 					}
-					if word == "let" {
+					if word == "assume-after" {
+						curSite.AssumeAfter = append(curSite.AssumeAfter, c)
+						cs.Scan["assume"]++
+					} else if word == "let" {
 						curSite.Lets = append(curSite.Lets, c)
 					} else if word == "entry" {
 						curSite.Entry = append(curSite.Entry, c)
